@@ -356,7 +356,8 @@ fn main() {
         "pp-explore" => {
             let timeout: u64 = args[2].parse().unwrap();
             let chans: Vec<u32> = args[3..].iter().filter_map(|s| s.parse().ok()).collect();
-            poll::explore(&mut out, &chans, timeout, if tier == "thorough" { 100_000 } else { 5_000 }, strict);
+            let full = args.iter().any(|a| a == "--full-transparency");
+            poll::explore(&mut out, &chans, timeout, if tier == "thorough" { 100_000 } else { 5_000 }, strict, full);
         }
         #[cfg(feature = "std")]
         "pp-random" => { let (h, l) = if tier == "thorough" { (60_000, 80) } else { (6_000, 60) }; poll::random_histories(&mut out, seed, h, l, strict); }
@@ -422,6 +423,11 @@ fn main() {
             }
             out.stat("evaluations", evals);
             out.stat("nontrivial", evals);
+        }
+        // C04: every value read back from a constructed message is within the range of its type
+        "ctor-range" => {
+            let impls: &[&str] = if tier == "thorough" { &msgs::IMPLS } else { &["raw", "str"] };
+            ctors::range_sweep(&mut out, impls);
         }
         "tu-lines" => {
             let mut n = 0u64;
